@@ -7,50 +7,7 @@ import (
 	"go/ast"
 )
 
-// C07: running the injector on a file it has already processed changes nothing.
-
-// merge level: merging the comment's items into the already merged literal is the identity
-func vC07Merge(nOld, nInj int, kmax, vmax int) {
-	old := vItemsN("o", nOld, true, kmax, vmax)
-	inj := vItemsN("i", nInj, true, kmax, vmax)
-	sep := []string{" ", "  "}[vndChoice("sep", 2)]
-	injText := vItemsText(inj, " ")
-	m1 := newTagItems(vItemsText(old, sep)).override(newTagItems(injText)).format()
-	m2 := newTagItems(m1).override(newTagItems(injText)).format()
-	vAssert(m2 == m1, "C07 merge: a second merge of the same comment is the identity")
-	m3 := newTagItems(m2).override(newTagItems(injText)).format()
-	vAssert(m3 == m1, "C07 merge: a third merge is the identity")
-	vReach("end")
-}
-
-func H_C07_merge_1_1()  { vC07Merge(1, 1, 2, 2) }
-func H_C07_merge_2_1()  { vC07Merge(2, 1, 1, 2) }
-func H_C07_merge_1_2()  { vC07Merge(1, 2, 1, 2) }
-func H_C07_merge_0_2()  { vC07Merge(0, 2, 2, 2) }
-func H_C07T_merge_2_2() { vC07Merge(2, 2, 2, 2) }
-func H_C07T_merge_3_2() { vC07Merge(3, 2, 1, 2) }
-
-// expression level: injectTag applied twice with the area re-derived from the first output
-func H_C07_expr() {
-	old := vItemsN("o", 1, true, 2, 2)
-	inj := vItemsN("i", 2, true, 1, 2)
-	oldText := vItemsText(old, " ")
-	injText := vItemsText(inj, " ")
-	pre := vndStringN("pre", 1)
-	post := " // @tag " + injText + "\n"
-	expr := "F string `" + oldText + "`"
-	c0 := pre + expr + post
-	start := len(pre) + 1
-	c1 := string(injectTag([]byte(c0), textArea{Start: start, End: start + len(expr), CurrentTag: oldText, InjectTag: injText}))
-	merged := vItemsText(vMerge(old, inj), " ")
-	expr1 := "F string `" + merged + "`"
-	vAssert(c1 == pre+expr1+post, "C07 expr: first run merges")
-	c2 := string(injectTag([]byte(c1), textArea{Start: start, End: start + len(expr1), CurrentTag: merged, InjectTag: injText}))
-	vAssert(c2 == c1, "C07 expr: second run leaves the bytes unchanged")
-	vReach("end")
-}
-
-// file level: the whole pipeline twice (and a third time) on the in-memory file
+// black-box harnesses of C07: ParseFile + WriteFile over the file model
 func H_C07_file() {
 	o1 := vItemsN("a", 1, true, 1, 2)
 	i1 := vItemsN("b", 2, true, 1, 1)
@@ -111,25 +68,6 @@ func H_C07_file_plain() {
 }
 
 // the comment may name a key twice: the merge must still reach a fixed point after the first run
-func H_C07_merge_dupkey() {
-	k := vKey("k", 2)
-	a, b := vTagVal("a", 2, true), vTagVal("b", 2, true)
-	injText := k + ":\"" + a + "\" " + k + ":\"" + b + "\""
-	old := ""
-	switch vndChoice("old", 3) {
-	case 1:
-		old = "json:\"x\""
-	case 2:
-		old = k + ":\"" + vTagVal("o", 1, true) + "\""
-	}
-	m1 := newTagItems(old).override(newTagItems(injText)).format()
-	m2 := newTagItems(m1).override(newTagItems(injText)).format()
-	vAssert(m2 == m1, "C07 merge: a comment that repeats a key still reaches a fixed point after one run")
-	m3 := newTagItems(m2).override(newTagItems(injText)).format()
-	vAssert(m3 == m2, "C07 merge: and stays there")
-	vReach("end")
-}
-
 // an override that shortens an earlier literal while later fields are annotated too
 func H_C07_file_shrink() {
 	v := vTagVal("v", 1, true)
@@ -388,4 +326,46 @@ func vIndexStr(s, sub string) int {
 
 func vSetFirstTag(f *ast.File, lit string) {
 	f.Decls[0].(*ast.GenDecl).Specs[0].(*ast.TypeSpec).Type.(*ast.StructType).Fields.List[0].Tag.Value = lit
+}
+
+// twin fields: two (three) structs declare a byte-identical field -- same name, type and tag literal, as
+// the first field of several messages is in generated code -- but their @tag comments differ. Every field
+// receives its own comment's value on the first run, and later runs change nothing.
+func H_C07_twin_fields() {
+	v1, v2 := vTagVal("v1", 2, true), vTagVal("v2", 2, true)
+	n := 2 + vndChoice("third", 2)
+	vals := []string{v1, v2, "int"}
+	var structs []vStructSrc
+	merged := map[string]string{}
+	for i := 0; i < n; i++ {
+		name := string([]byte{byte('A' + i)})
+		structs = append(structs, vStructSrc{name: name, fields: []vField{
+			{name: "Id", typ: "int64", hasTag: true, tag: "json:\"id\"", comment: "// @tag valid:\"" + vals[i] + "\""},
+			{name: "N", typ: "int"},
+		}})
+		merged[name+".Id"] = "json:\"id\" valid:\"" + vals[i] + "\""
+	}
+	src, f := vBuildSource("", structs, "")
+	out1, err := vRunInjector("i.go", src, f)
+	vAssert(err == nil, "C07 twin fields: first run succeeds")
+	want := vExpectedSource("", structs, "", merged)
+	vAssert(out1 == want, "C07 twin fields: every field receives the value of its own comment")
+	if out1 != want {
+		return
+	}
+	var st2 []vStructSrc
+	for _, st := range structs {
+		ns := vStructSrc{name: st.name}
+		for _, fd := range st.fields {
+			if m, ok := merged[st.name+"."+fd.name]; ok {
+				fd.tag = m
+			}
+			ns.fields = append(ns.fields, fd)
+		}
+		st2 = append(st2, ns)
+	}
+	src2, f2 := vBuildSource("", st2, "")
+	out2, err := vRunInjector("i.go", src2, f2)
+	vAssert(err == nil && out2 == out1, "C07 twin fields: second run leaves the file byte-for-byte unchanged")
+	vReach("end")
 }
